@@ -32,12 +32,12 @@ PROPS = {
     "C05": {
         "level": "exploration",
         "technique": "runtime monitoring: every throw carries a unique id; a delivery log at every schedule / scheduleBulk / wait / tryWait call site; in-flight and outstanding counters at each delivery; plain + TSan + ASan builds",
-        "level_text": "Programs of up to 3 rounds of schedule / schedule(FQ) / scheduleBulk / scheduleBulk(FQ) calls (1..3 producer threads for ConcurrentTaskSet, external or pool-recursive caller, workers optionally held so that queues build up and inline fall-backs run) over pools 0..8 with any subset of <= 8 throwing bodies among <= 200, a soft rendezvous so throwers collide, then tryWait/wait sequences. Checked: no id delivered twice; an exception leaves a schedule call only if that call ran the body inline; the first completion-observing wait after a capture rethrows exactly one captured id (the first one where one thread ran all throwers) and later waits throw nothing; no delivery while bodies are unfinished; wait returns (watchdog + stuck-state sentinel).",
+        "level_text": "Programs of up to 3 rounds of schedule / schedule(FQ) / scheduleBulk / scheduleBulk(FQ) calls (1..3 producer threads for ConcurrentTaskSet, external or pool-recursive caller, workers optionally held so that queues build up and inline fall-backs run) over pools 0..8 with any subset of <= 8 throwing bodies among <= 200, a soft rendezvous so throwers collide, then tryWait/wait sequences. Scripted families: late-thrower (first captured is determined) and throw-after-cancel (thrower already running and held, set cancelled by its owner / another thread / a kOn parent's cascade, then the body throws: the exception must still be delivered exactly once by the next completed wait/tryWait and wait() reports cancellation; TaskSet and ConcurrentTaskSet heavy/light, single and bulk scheduling, pools 1..4). Checked: no id delivered twice; an exception leaves a schedule call only if that call ran the body inline; the first completion-observing wait after a capture rethrows exactly one captured id (the first one where one thread ran all throwers) and later waits throw nothing; no delivery while bodies are unfinished; wait returns (watchdog + stuck-state sentinel).",
         "level_note": "Which captured exception is first is only judged when all throwers of the batch ran on one thread. Pipelines are covered by C29.",
         "design_ref": "DESIGN.md §4 C05",
         "rule": "case = generated program (ops, throwers, waits, pool, set kind); non-trivial = at least one body threw; distinct by full spec",
         "required_classes": ["kind:ts", "kind:cts-heavy", "kind:cts-light", "pool0", "direct-propagation", "delivered-by-wait", "concurrent-throwers",
-                             "late-thrower-first", "captured-inline-throw", "multi-producer", "pool-recursive-caller", "tryWait", "multi-round"],
+                             "late-thrower-first", "throw-after-user-cancel", "throw-after-cascade-cancel", "throw-after-other-thread-cancel", "throw-after-cancel:bulk", "throw-after-cancel:single", "throw-after-cancel:tryWait", "captured-inline-throw", "multi-producer", "pool-recursive-caller", "tryWait", "multi-round"],
         "assumptions": _A,
         "runs": {
             "quick": [{"config": "plain", "shards": 16, "args": {"n": 960}}, {"config": "tsan", "shards": 16, "args": {"n": 192}}, {"config": "asan", "shards": 16, "args": {"n": 320}}],
